@@ -22,6 +22,9 @@ def rne (x : Rat) : Int :=
 /-- one component of pymatgen's `to_displacements`: `d − round(d)`. -/
 def minImg1 (d : Rat) : Rat := d - (rne d : Rat)
 
+/-- `ndarray.astype(int)` on a finite value: truncation toward zero. -/
+def truncZ (y : Rat) : Int := if 0 ≤ y then y.floor else -((-y).floor)
+
 /-- Python's `%` on integers with a positive modulus. -/
 def pmod (a : Int) (n : Nat) : Nat := (a % (n : Int)).toNat
 
